@@ -2,7 +2,7 @@
     Only statements here; proofs live in Proofs/Qr*.v. *)
 From Qv Require Import Common.Bytes Gen.GenQrdata Model.Mime Model.QrData Spec.SmtpDataSpec
   Proofs.QrNeedRecodeProofs Proofs.QrPlainSpecProofs Proofs.QrQpDecodeProofs Proofs.QrQpTopProofs Proofs.QrWrapLineProofs
-  Spec.DeliverSpec.
+  Spec.DeliverSpec Proofs.QrPhaseProofs Proofs.QrContentProofs.
 
 (** When no recoding is necessary, what is sent after the 354 is, byte for byte, the message with CR, LF
     and CRLF line ends normalised to CRLF (a final CRLF added if missing; the empty message stays
@@ -30,6 +30,48 @@ Proof.
 Qed.
 Print Assumptions C07_qp_body.
 
+(** The recoding path as a whole, for a message that is no multipart (no header field is accepted by
+    is_multipart() as a multipart Content-Type): every message made of octets, every legal HELO name, either
+    8BITMIME setting.  When send_data takes the recoding path and completes, the octets written are
+        X1  [the two lines of recodeheader(), if the body is recoded]  X2  B  [extra]  terminator
+    where, with h the end of the header (the offset [hpos 0 m] of the first empty line — or of the end of the
+    message when there is none — or, if the message begins with an empty line, the end of that line):
+    - if the body is recoded and the header scan recorded a field [s, s+l): that field lies in the message,
+      begins at the start of a line at or before h with the name Content-Transfer-Encoding: in any case, ends
+      with a line end and is as long as getfieldlen() says (first line and continuation lines);
+    - X1 unfolds to the header in front of that field and X2 to the header behind it (without such a field, or
+      when the body is not recoded: X1 to nothing and X2 to the whole header), [unfolds_to] = the receiver
+      removes the "CRLF SP" Qremote inserted, and gets the lines CRLF-normalised and dot-stuffed, byte for
+      byte; a header without final line end gets its CRLF;
+    - B is the body: when recoded, the strict quoted-printable receiver of Spec/SmtpDataSpec.v decodes it to
+      the body (CRLF-normalised, up to the final CRLF); otherwise it is the CRLF-normalised, dot-stuffed body;
+    - [extra] is empty, except possibly one CRLF (an empty line) behind a message that consists of a header
+      only.
+    Not covered: which of several Content-Transfer-Encoding fields is the recorded one (the last), and that no
+    field was overlooked; multipart messages. *)
+Theorem C07_recoded_content : forall (m helo : bytes) (ext8 : bool),
+  line_clean helo /\ seven_bit helo /\ length helo <= 255 ->
+  Forall (fun c => (c < 256)%N) m ->
+  (forall ls ll bs bl, is_multipart m ls ll <> Ok (MpYes bs bl)) ->
+  forall fl st, send_data m helo ext8 = Ok (fl, true, Done tt st) ->
+  let br := f8 fl || fline fl in
+  exists h s l X1 X2 B extra,
+    1 <= h <= length m /\
+    (h = hpos 0 m \/ exists c0 r, m = c0 :: r /\ is_eol c0 = true /\ skipn h m = after_eol c0 r) /\
+    (l <> 0 -> s + l <= length m /\ s <= h /\ (s = 0 \/ is_eol (nth (s - 1) m 0%N) = true) /\
+               is_eol (nth (s + l - 1) m 0%N) = true /\
+               map to_lower (sub m s (length CTE_NAME)) = CTE_NAME /\ getfieldlen m s (length m - s) = Ok l) /\
+    let cut := br && negb (Nat.eqb l 0) in
+    let s' := if cut then s else 0 in
+    let e' := if cut then s + l else 0 in
+    concat (rev (out st)) = X1 ++ (if br then RECODED_STR ++ helo ++ CRLF else []) ++ X2 ++ B ++ extra ++ TERMINATOR /\
+    (extra = [] \/ extra = CRLF /\ h = length m) /\
+    unfolds_to X1 (stuff (split_lines (sub m 0 s'))) = true /\
+    unfolds_to X2 (stuff (split_lines (sub m e' (h - e')))) = true /\
+    (if br then qp_roundtrip (skipn h m) B else B = stuff (split_lines (skipn h m))).
+Proof. exact send_data_content_nomulti. Qed.
+Print Assumptions C07_recoded_content.
+
 (** wrap_line() on any line of at least WL_LONG octets: what it writes is the dot-stuffed line followed by
     CRLF with "CRLF SP" inserted at some places — [unfolds_to], the relation with which the C07 checker
     undoes the folding, holds.  (The blank in front of a folding point stays, a blank is added behind it.) *)
@@ -51,3 +93,9 @@ Example C07_nonvacuous :
   must_recode false m = false /\
   plain_wire m = [97; 13; 10; 98; 13; 10; 46; 46; 99; 13; 10; 46; 46; 46; 100; 13; 10; 46; 13; 10]%N.
 Proof. split; reflexivity. Qed.
+
+(** the recoding path is taken and completed by a concrete message: "S: x CRLF CRLF h 0xE4 CRLF" without 8BITMIME *)
+Example C07_recoded_nonvacuous :
+  let m := [83; 58; 32; 120; 13; 10; 13; 10; 104; 228; 13; 10]%N in
+  exists fl st, send_data m [104]%N false = Ok (fl, true, Done tt st) /\ f8 fl || fline fl = true.
+Proof. eexists. eexists. split; [vm_compute; reflexivity|reflexivity]. Qed.
